@@ -17,7 +17,11 @@ def main(tier, seed):
     targets = [('be', PORTABLE), ('be32', PORTABLE if tier == 'thorough' else ['c01', 'c02', 'c04', 'c06', 'c09'])]
     inner = 'thorough' if tier == 'thorough' else 'quick'
     for tg, names in targets:
-        ctx = Ctx(tg)
+        # mips is compiled the way GCC presents itself there: __GNUC__ = 12 and no __BIG_ENDIAN__ (GCC for MIPS, s390x,
+        # SPARC, m68k defines __BYTE_ORDER__ and target-specific macros only; clang adds __BIG_ENDIAN__ everywhere)
+        # powerpc64 presents itself as GCC 12 too (an LP64 target on which `#if __GNUC__ >= 5 && __LP64__` code is live)
+        ctx = Ctx(tg, extra=('-fgnuc-version=12.2.0',), suffix='_gcc') if tg == 'be' else \
+            Ctx(tg, extra=('-fgnuc-version=12.2.0', '-U__BIG_ENDIAN__'), suffix='_gcclike')
         if not ctx.mod.big_endian:
             from ..report import Broken
             raise Broken('target %s is not big-endian' % tg)
